@@ -57,6 +57,12 @@ func check(c *rig.Ctx, name string, s emu.Scenario, caseID string) {
 		}
 		c.Count("scenarios_with_host_stalls", 1)
 	}
+	// between the two runs another instance with the LCD debug option is created and run for a
+	// frame in this process (whatever it sets up must stay its own)
+	sd := s
+	sd.DebugLCD, sd.Frames, sd.Keys, sd.Audio = true, 1, nil, false
+	emu.Run(sd, path)
+	c.Count("debug_lcd_interludes", 1)
 	t2 := emu.Run(s2, path)
 	cfg := fmt.Sprintf("video=%v audio=%v frames=%d keys=%d", s.Video, s.Audio, s.Frames, len(s.Keys))
 	if d := emu.Diff(t1, t2); d != "" {
@@ -148,6 +154,16 @@ func run(c *rig.Ctx) {
 		frames := 3 + r.Intn(3)
 		s := emu.Scenario{ROM: p.ROM, Video: i%2 == 0, Audio: false, Frames: frames, Keys: keySchedule(r, frames)}
 		check(c, "overlapping-objects program", s, fmt.Sprintf("sprites:%d", i))
+	})
+	// (2c) battery-backed cartridge types whose programs read cartridge RAM before writing it
+	// (nothing of an earlier run may survive into a later one, in this process or another)
+	batt := []uint8{0x03, 0x06, 0x0f, 0x10, 0x13, 0x1b, 0x1e}
+	c.Part("battery", int64(len(batt))*c.N(2, 8), func(i int64, r *rig.Rng) {
+		p := prog.Battery(r, batt[i%int64(len(batt))])
+		frames := 2 + r.Intn(3)
+		s := emu.Scenario{ROM: p.ROM, Video: i%2 == 0, Audio: false, Frames: frames}
+		check(c, fmt.Sprintf("battery program cart=%02X", p.CartType), s, fmt.Sprintf("battery:%d", i))
+		c.Count("battery_scenarios", 1)
 	})
 	// (3) audio attached (race-detector build): sound programs and ROMs
 	c.Part("audio", c.N(10, 80), func(i int64, r *rig.Rng) {
